@@ -42,14 +42,14 @@ func init() {
 			return 8
 		},
 		Exhaustive: false,
-		Rule: "case = (length n, variant): EVERY n in 0..300 x 4 variants (thorough 0..3000 x 3); items added with AddData/AddHash (variant 0: all AddData, no intermediate flush; variants >=1: PRNG mix of AddData/AddHash with 1-3 intermediate Flush points, some followed by replacing the object with a Recover()ed one). At length n: WitnessFor(i) for EVERY i<n is compared with an independently computed witness (own SHA3-256 binary tree over the leaf hashes, block decomposition of n by its binary digits), folded by the harness to the independently computed block root, and passed to Verify; then Flush, all witnesses again; Recover into a fresh object over the same bucket, Len and all witnesses again; add 1..17 more items (or up to the next power of two), all witnesses again; Flush+Recover once more. Fault phase (a Flush that finally returns nil must have persisted everything): the same n items are re-added to a new accumulator whose bucket fails its k-th Set exactly once (every k of the first Flush for n<=32, 2 random k otherwise; variants 0 and 1), Flush is retried until nil, a fresh accumulator Recover()s from the plain bucket and every witness is checked again. Non-trivial = distinct (n,variant) with n+1 not a power of two (some root slot is empty).",
+		Rule: "case = (length n, variant): EVERY n in 0..300 x 4 variants (thorough 0..3000 x 3); items added with AddData/AddHash (variant 0: all AddData, no intermediate flush; variants >=1: PRNG mix of AddData/AddHash with 1-3 intermediate Flush points, some followed by replacing the object with a Recover()ed one). At length n: WitnessFor(i) for EVERY i<n is compared with an independently computed witness (own SHA3-256 binary tree over the leaf hashes, block decomposition of n by its binary digits), folded by the harness to the independently computed block root, and passed to Verify; then Flush, all witnesses again; Recover into a fresh object over the same bucket, Len and all witnesses again; add 1..17 more items (or up to the next power of two), all witnesses again; Flush+Recover once more. Fault phase (a Flush that finally returns nil must have persisted everything): the same n items are re-added to a new accumulator whose bucket fails its k-th Set exactly once (every k of the first Flush for n<=32, 2 random k otherwise; variants 0 and 1), Flush is retried until nil, a fresh accumulator Recover()s from the plain bucket and every witness is checked again. Rollback phase (variants 0 and 2, every n): n items are flushed, 1..5 more are added WITHOUT flush, Recover() is called on the SAME object, then Len and every witness, 1..6 further Adds (their Add-witnesses too), every witness again, Flush, Recover into a fresh object and every witness again are checked against the reference of the persisted sequence; twice in a row. Non-trivial = distinct (n,variant) with n+1 not a power of two (some root slot is empty).",
 		MinNonTrivial: func(t string) int {
 			if t == ev.Thorough {
 				return 8500
 			}
 			return 1100
 		},
-		Required:    []string{"witness_checked", "witness_after_recover", "flush_ok", "recover_ok", "lengths_with_empty_slot", "add_witness_checked", "witness_out_of_range_rejected", "flush_retried_after_injected_write_failure", "witness_after_faulted_flush"},
+		Required:    []string{"witness_checked", "witness_after_recover", "flush_ok", "recover_ok", "lengths_with_empty_slot", "add_witness_checked", "witness_out_of_range_rejected", "flush_retried_after_injected_write_failure", "witness_after_faulted_flush", "recover_on_live_accumulator_after_unflushed_adds", "witness_grown_after_live_recover"},
 		Assumptions: []string{"golang.org/x/crypto/sha3 (called directly by the harness) is the reference hash", "db.NewMapDB bucket is a faithful key-value store"},
 		TimeoutSec: func(t string) int {
 			if t == ev.Thorough {
@@ -410,6 +410,75 @@ func faultPhase(c *ev.Ctx, r *rand.Rand, n int, parentDesc string) {
 	}
 }
 
+// truncate rolls the reference back to the first n leaves.
+func (s *caseState) truncate(n int) {
+	s.leaves = s.leaves[:n]
+	s.items = s.items[:n]
+	for l := range s.m.levels {
+		if k := n >> uint(l); k < len(s.m.levels[l]) {
+			s.m.levels[l] = s.m.levels[l][:k]
+		}
+	}
+}
+
+// rollbackPhase: Recover() on the LIVE accumulator object after 1..5 unflushed
+// Adds is a rollback to the persisted sequence: Len, every witness, and
+// everything accumulated afterwards must depend on that sequence only.
+func rollbackPhase(c *ev.Ctx, r *rand.Rand, n int, parentDesc string) {
+	plain, err := db.NewMapDB().GetBucket("")
+	if err != nil {
+		panic(err)
+	}
+	s := &caseState{c: c, n: n, bucket: plain, key: []byte("acc")}
+	s.desc = fmt.Sprintf("%s rollback-phase item_seed=%d", parentDesc, r.Int63())
+	a := &mta.Accumulator{KeyForState: s.key, Bucket: plain}
+	for k := 0; k < n && !s.stop; k++ {
+		s.addQuiet(a, r, r.Intn(4) == 0)
+	}
+	if s.stop || !s.flush(a, "rollback-base") {
+		return
+	}
+	for round := 0; round < 2 && !c.Stopped(); round++ {
+		persisted := len(s.leaves)
+		u := 1 + r.Intn(5)
+		for k := 0; k < u && !s.stop; k++ {
+			s.addQuiet(a, r, r.Intn(4) == 0)
+		}
+		if s.stop {
+			return
+		}
+		s.truncate(persisted)
+		s.desc += fmt.Sprintf("; persisted=%d, %d unflushed Adds, Recover() on the same object", persisted, u)
+		var rerr error
+		if !s.guarded("recover.panic.live", nil, func() { rerr = a.Recover() }) {
+			return
+		}
+		if rerr != nil {
+			s.viol("recover.error.live", map[string]interface{}{"err": rerr.Error()})
+			return
+		}
+		c.Count("recover_on_live_accumulator_after_unflushed_adds", 1)
+		c.Eval(1)
+		s.checkAll(a, "after-live-recover", "witness_after_live_recover")
+		v := 1 + r.Intn(6)
+		for k := 0; k < v && !s.stop; k++ {
+			s.add(a, r, r.Intn(4) == 0)
+		}
+		if s.stop {
+			return
+		}
+		s.desc += fmt.Sprintf(", then %d Adds", v)
+		s.checkAll(a, "grown-after-live-recover", "witness_grown_after_live_recover")
+		if !s.flush(a, "after-live-recover") {
+			return
+		}
+		if na := s.recover("after-live-recover"); na != nil {
+			s.checkAll(na, "fresh-recover-after-live-recover", "witness_after_recover")
+		}
+		c.NonTrivial(fmt.Sprintf("L/%d/%d/%d/%d", n, persisted, u, v))
+	}
+}
+
 // addQuiet adds one item and updates the model without checking the Add witness.
 func (s *caseState) addQuiet(a *mta.Accumulator, r *rand.Rand, useHash bool) {
 	d := make([]byte, 1+r.Intn(40))
@@ -514,6 +583,9 @@ func run(c *ev.Ctx) {
 		}
 		if variant == 0 || (n > 32 && variant == 1) {
 			faultPhase(c, r, n, fmt.Sprintf("n=%d variant=%d", n, variant))
+		}
+		if variant == 0 || variant == 2 {
+			rollbackPhase(c, r, n, fmt.Sprintf("n=%d variant=%d", n, variant))
 		}
 		if c.WantSample() && n > 2 {
 			i := r.Intn(len(s.leaves))
